@@ -1039,6 +1039,154 @@ STEPS_HEADER = (
 )
 
 
+# ---- history kind 'object': ONE BIOGEME object; the table changes after its construction (Database.remove,
+# or rows dropped through database.data); then likelihood / derivatives / simulate on the same object.
+# What the property allows: every value is the value on ONE consistent table -- the table of the construction or
+# the current one (each individual owns exactly its rows of that table) -- never old rows with new ranges.
+def gen_object_case(rng, kmax, smax):
+    K = rng.randint(2, kmax)
+    vals, scale, dtype = gen_id_values(rng, K)
+    vals = order_values(rng, vals)
+    sizes = [rng.randint(1, smax) for _ in range(K)]
+    if max(sizes) == 1:
+        sizes[rng.randrange(K)] = 2
+    col = blocks_to_column(vals, sizes)
+    n = len(col)
+    how = rng.random()
+    if how < 0.35:     # whole individuals, not only the last one of the sorted table
+        gone = set(rng.sample(sorted(set(col)), rng.randint(1, K - 1)))
+        rm = [1 if v in gone else 0 for v in col]
+    elif how < 0.5:    # one row in the first individual of the sorted table: every range moves
+        first = min(col)
+        rm = [0] * n
+        rows = [k for k, v in enumerate(col) if v == first]
+        rm[rng.choice(rows)] = 1 if len(rows) > 1 else 0
+        if not any(rm):
+            rm[col.index(sorted(set(col))[0])] = 1
+    else:
+        rm = [1 if rng.random() < 0.3 else 0 for _ in range(n)]
+    if all(rm):
+        rm[rng.randrange(n)] = 0
+    if not any(rm):
+        rm[rng.randrange(n)] = 1
+        if all(rm):
+            rm = [0] * n
+    change = rng.choice(['remove', 'remove', 'droprows'])
+    evals = ['ll', 'lls', 'lld', 'llds', 'sim']
+    seq = rng.choice([[], ['ll'], ['sim'], ['lls', 'sim']]) + [change]
+    seq += [rng.choice(evals)] + rng.sample(evals, 3) + ['ll']
+    return {'history': 'object', 'ids': col, 'scale': scale, 'dtype': dtype, 'x': dyadic_column(rng, n),
+            'y': dyadic_column(rng, n), 'kind': rng.choice(['bx', 'xpby']), 'beta': rng.choice([0.5, 0.75, 1.25, 1.5, 2.0]),
+            'R': rng.choice([1, 2, 3, 5]), 'threads': rng.choice([1, 2, 3, 4]), 'rm': rm, 'seq': seq,
+            'variant': f'object-{change}'}
+
+
+def object_tables(c):
+    keep = [k for k in range(len(c['ids'])) if not c['rm'][k]]
+    con = {k: c[k] for k in ('ids', 'x', 'y', 'kind', 'beta', 'R')}
+    cur = dict(con, ids=[c['ids'][k] for k in keep], x=[c['x'][k] for k in keep], y=[c['y'][k] for k in keep])
+    return con, cur
+
+
+def object_oracle(c, r):
+    bad = []
+    if 'runner' in r:
+        return [('runner-exception', f"{r['runner']}", None, r['runner'])]
+    if not r['panel']['ok']:
+        return [('refused-contiguous', 'Database.panel refused a contiguous column', None, r['panel'])]
+    if not r['build']['ok']:
+        return [('object-exception-build', f"{r['build'].get('exc')}: {r['build'].get('msg')}", None, r['build'])]
+    con, cur = object_tables(c)
+    tabs = {}
+    for name, t in (('construction', con), ('current', cur)):
+        inds, plain, mc = expected(t)
+        logs = [math.log(plain[i]) for i in inds]
+        tabs[name] = {'inds': inds, 'plain': [plain[i] for i in inds], 'mc': [mc[i][j] for j, i in enumerate(inds)],
+                      'S': math.fsum(logs), 'N': len(inds), 'mag': len(inds) + sum(abs(v) for v in logs), 'logs': logs}
+
+    def fl(t):
+        return float(Fraction(t[0], t[1])) if isinstance(t, list) else float('nan')
+    changed = None
+    for k, (a, o) in enumerate(zip(c['seq'], r['steps'])):
+        where = f'step {k} ({a}' + (f', after {changed})' if changed else ', before the change)')
+        if a in ('remove', 'droprows'):
+            if not o['ok']:
+                bad.append((f'object-exception-{a}', f"{where}: {o.get('exc')}: {o.get('msg')}", None, o))
+                return bad
+            changed = a
+            continue
+        allowed = ['construction', 'current'] if changed else ['construction']
+        key = f"object-{a}-{'after-' + changed if changed else 'before-change'}"
+        if not o['ok']:
+            bad.append((f'object-exception-{a}', f"{where}: {o.get('exc')}: {o.get('msg')}", None, o))
+            continue
+        v = o['v']
+        if a in ('ll', 'lld'):
+            if not any(abs(fl(v) - tabs[t]['S']) <= TOL_F * tabs[t]['mag'] for t in allowed):
+                bad.append((key, f'{where}: the log likelihood of the BIOGEME object is not the sum over the individuals of ONE '
+                            f'table (construction or current) of the log of the product over exactly their rows',
+                            {t: tabs[t]['S'] for t in allowed}, fl(v)))
+        elif a in ('lls', 'llds'):
+            if any(abs(fl(v) * tabs[t]['N'] - tabs[t]['S']) <= TOL_F * tabs[t]['mag'] for t in allowed):
+                continue
+            t0, t1 = tabs['construction'], tabs['current']
+            if changed and t0['N'] != t1['N'] and abs(fl(v) * t1['N'] - t0['S']) <= TOL_F * t0['mag']:
+                bad.append(('object-scaled-mixed-tables', f'{where}: the scaled log likelihood is the likelihood of the table of the '
+                            f"construction ({t0['N']} individuals) divided by the current number of individuals ({t1['N']})",
+                            {'construction': t0['S'] / t0['N'], 'current': t1['S'] / t1['N']}, fl(v)))
+            else:
+                bad.append((key, f'{where}: the scaled log likelihood is not (sum over the individuals of ONE table) / (number of '
+                            f'individuals of that table)', {t: tabs[t]['S'] / tabs[t]['N'] for t in allowed}, fl(v)))
+        elif a == 'sim':
+            def fits(t):
+                T = tabs[t]
+                return (v['index'] == T['inds'] and len(v['plain']) == T['N']
+                        and all(closeF(frac(p_), w) for p_, w in zip(v['plain'], T['plain']))
+                        and all(closeF(frac(p_), w) for p_, w in zip(v['mc'], T['mc']))
+                        and all(abs(fl(p_) - w) <= TOL_F * (1 + abs(w)) for p_, w in zip(v['loglike'], T['logs'])))
+            if not any(fits(t) for t in allowed):
+                bad.append((key, f'{where}: simulate does not return, for the individuals of ONE table (construction or current), the '
+                            f'product over exactly their rows (old rows combined with new ranges?)',
+                            {t: {'index': tabs[t]['inds'], 'plain': [str(w) for w in tabs[t]['plain']]} for t in allowed}, v))
+        if o['sample_size']['ok'] and o['sample_size']['v'] != tabs['current' if changed else 'construction']['N']:
+            bad.append(('sample-size', f'{where}: get_sample_size() is not the number of individuals of the current table',
+                        tabs['current' if changed else 'construction']['N'], o['sample_size']['v']))
+    return bad
+
+
+def coq_object_case(c, r):
+    """the last simulation after the change against the model on the current table (None: nothing to compare)"""
+    if 'runner' in r or not r['panel']['ok'] or not r.get('build', {}).get('ok'):
+        return None
+    con, cur = object_tables(c)
+    changed, last = False, None
+    for a, o in zip(c['seq'], r['steps']):
+        if a in ('remove', 'droprows'):
+            changed = True
+        elif a == 'sim' and o['ok']:
+            last = (cur if changed else con, o['v'])
+    if last is None:
+        return 'skip'
+    t, v = last
+    inds = sorted(set(t['ids']))
+    if v['index'] != inds or any(not isinstance(p_, list) for p_ in v['plain'] + v['mc']):
+        return None
+    rv = rowvals(t)
+    prow = coq_list([f'(({i}), ({coq_Q(p0)}, {coq_Q(Fraction(0))}))' for i, (p0, _, _) in zip(t['ids'], rv)])
+    mrow = coq_list([f'(({i}), ({coq_Q(p_)}, {coq_Q(q)}))' for i, (_, p_, q) in zip(t['ids'], rv)])
+    return f"({c['R']}%nat, {prow}, {mrow}, {coq_obs(inds, v['plain'])}, {coq_obs(inds, v['mc'])})"
+
+
+OBJ_HEADER = (
+    'From Coq Require Import ZArith List QArith.\nFrom BV Require Import Model.Panel.\nImport ListNotations.\n'
+    'Open Scope Z_scope.\n'
+    'Definition tol : Q := Qmake 1 1000000000000.\n'
+    'Definition chk (c : nat * list Qrow * list Qrow * list (Z * Q) * list (Z * Q)) : bool :=\n'
+    "  let '(R, prow, mrow, oplain, omc) := c in\n"
+    '  close_all tol oplain (model_plain prow) && close_all tol omc (model_mc R mrow).\n'
+)
+
+
 def cross_variant_oracle(ctx, group):
     """values follow the individuals under every reordering; totals agree"""
     if len(group) < 2:
@@ -1093,7 +1241,9 @@ def stream_panel_ll(ctx):
                     'declarations on two identifier columns (persons / households, some to be refused), direct edits of database.data '
                     '(append small/large/middle/existing individual, merge, relabel, drop individuals / rows, permute) and evaluations through '
                     'get_value_c, get_value_and_derivatives, values_from_database, create_function, BIOGEME simulate / likelihood, every one of '
-                    'them as the first evaluation after an edit or a declaration; scaled and unscaled derivatives; non-trivial = at least 2 individuals and one individual with >= 2 rows; distinct by full case')
+                    'them as the first evaluation after an edit or a declaration; scaled and unscaled derivatives; and one BIOGEME object whose '
+                    'table changes after its construction (Database.remove of rows / whole individuals not at the end, rows dropped through '
+                    'database.data), then likelihood, scaled likelihood, derivatives and simulate on the same object in every order; non-trivial = at least 2 individuals and one individual with >= 2 rows; distinct by full case')
     rng = ctx.sub_rng('panel_ll')
     groups = []
     for c in load_corpus('ll'):
@@ -1106,10 +1256,12 @@ def stream_panel_ll(ctx):
             groups.append([c])
     for k in range(ctx.n(15, 240)):
         groups.append([gen_steps_case(rng, ctx.n(6, 12), ctx.n(3, 5), ('edit', 'repanel', 'mixed')[k % 3])])
+    for _ in range(ctx.n(12, 150)):
+        groups.append([gen_object_case(rng, ctx.n(5, 10), ctx.n(3, 5))])
     cases = [c for g in groups for c in g]
     res = run_impl(ctx, 'c09_ll.py', cases,
                    lambda msg: {'runner': {'ok': False, 'exc': 'subprocess died', 'msg': msg}})
-    items, hitems, sitems = [], [], []
+    items, hitems, sitems, oitems = [], [], [], []
     step_notes = 0
     for idx, (c, r) in enumerate(zip(cases, res)):
         sizes = [len(rows) for _, rows in blocks_of(c)]
@@ -1121,6 +1273,8 @@ def stream_panel_ll(ctx):
             found = [f + (None,) * (4 - len(f)) for f in found]
         elif hist == 'bootstrap':
             found = hist_oracle(c, r)
+        elif hist == 'object':
+            found = object_oracle(c, r)
         else:
             found = ll_oracle(c, r)
         for what, detail, exp, obs in found:
@@ -1128,11 +1282,14 @@ def stream_panel_ll(ctx):
                           {'stream': 'panel_ll', 'case': c,
                            'table': {'pid': c['ids'], 'x': c['x'], 'y': c['y'], **({'hid': c['cols']['hid']} if hist == 'steps' else {})}},
                           exp, obs, how='./check C09 --replay <this file>')
-        t = coq_steps_case(c, r) if hist == 'steps' else coq_hist_case(c, r) if hist == 'bootstrap' else coq_ll_case(c, r)
+        t = (coq_steps_case(c, r) if hist == 'steps' else coq_hist_case(c, r) if hist == 'bootstrap' else
+             coq_object_case(c, r) if hist == 'object' else coq_ll_case(c, r))
+        if t == 'skip':
+            continue
         if t is None:
             st.disagree(c, 'per-individual values', r, 'implementation output not encodable (exception / non-finite value)')
             continue
-        (sitems if hist == 'steps' else hitems if hist == 'bootstrap' else items).append((idx, t))
+        (sitems if hist == 'steps' else hitems if hist == 'bootstrap' else oitems if hist == 'object' else items).append((idx, t))
     pos = 0
     for g in groups:
         cross_variant_oracle(ctx, list(zip(g, res[pos:pos + len(g)])))
@@ -1140,12 +1297,14 @@ def stream_panel_ll(ctx):
     verdict = run_coq_bools(ctx, st, 'pll', LL_HEADER, items, 60)
     verdict.update(run_coq_bools(ctx, st, 'phist', HIST_HEADER, hitems, 60))
     verdict.update(run_coq_bools(ctx, st, 'psteps', STEPS_HEADER, sitems, 30))
+    verdict.update(run_coq_bools(ctx, st, 'pobj', OBJ_HEADER, oitems, 60))
     for idx, b in verdict.items():
         if not b:
             st.disagree(cases[idx], 'model_plain / model_mc / build_map / sample_size over Q (relative 1e-12)', res[idx])
     st.extra['variants'] = {k: sum(1 for c in cases if c.get('variant') == k)
                             for k in ('base', 'ind', 'rows', 'both', 'relabel', 'corpus', 'bootstrap-completed',
-                                      'bootstrap-interrupted', 'steps-edit', 'steps-repanel', 'steps-mixed')}
+                                      'bootstrap-interrupted', 'steps-edit', 'steps-repanel', 'steps-mixed', 'object-remove',
+                                      'object-droprows')}
     st.extra['steps_history'] = {'cases': len(sitems), 'row_order_notes': step_notes,
                                  'declarations_refused': sum(1 for c, r in zip(cases, res) if c.get('history') == 'steps'
                                                              for o_, s_ in zip(r.get('steps', []), c['steps'])
@@ -1193,6 +1352,8 @@ def replay(ctx, path):
         r = ctx.impl('c09_ll.py', [c])[0]
         if c.get('history') == 'steps':
             bad = [b[:2] for b in steps_oracle(c, r)[0]]
+        elif c.get('history') == 'object':
+            bad = [b[:2] for b in object_oracle(c, r)]
         else:
             bad = [b[:2] for b in (hist_oracle(c, r) if c.get('history') == 'bootstrap' else ll_oracle(c, r))]
         if wit.get('base'):
